@@ -57,17 +57,24 @@ _D = {
         "record), CompilerBase.compile by trace induction over an abstract sequence (incl. noise placement and op.noise restoration), "
         "Stabilizer wrapper methods, tableau functions (C07 contracts) and L3 conjugation tables. Bounded: exhaustive short circuits and "
         "random long circuits against an independent state-vector semantics, both backends, all outcome branches, initial states.",
- "C02": "Deductive: _change_pauli_type for symbolic tableaux/indices (gate contracts, returned inverse classes, wanted Pauli reached), its "
-        "wrapper-inverts-applied-gates table and the measure-CNOT-reset / time-reversed-measurement identity L_meas (exact). Bounded: the "
-        "solver on all graphs n<=4 (n<=5 thorough) in three input representations x two compilers judged by an independent state vector "
-        "over every combination of measurement outcomes; vertex orders, generating sets, large graphs.",
+ "C02": "Deductive: _change_pauli_type (gate contracts, returned inverse classes, wanted Pauli reached) and the eight helper functions of the "
+        "time-reversed solver for symbolic sizes: circuit side (emission / emitter CNOT / measure-and-reset built with the right roles, "
+        "registers and Fixed label before insertion; one-qubit wrappers merged in the right order) and the ghost invariant SYNC (every gate "
+        "applied to the working tableau is mirrored by its inverse at the front of the circuit on the same qubit) with functional "
+        "postconditions (_single_out_emitter leaves +Z_e, _transform_generator_emitters a single Z, absorption +Z on the photon, "
+        "time-reversed measurement +X_e X_p); L_meas (exact). solve() as the composition of these, and totality, are bounded-only. "
+        "Bounded: the solver on all graphs n<=4, selected 6-vertex targets (one per leftover emitter state), 7-12 vertex families, three "
+        "input representations x two compilers judged by an independent state vector over every combination of measurement outcomes.",
  "C03": "Deductive: leftmost_nontrivial_index, height_func_list (two nested loop invariants, counting comprehension), height_dict, "
         "height_max, determine_n_emitters, frame/pivot arithmetic of rref and its helpers. Bounded: all stabilizer states n<=3 x generating "
         "sets against state-vector entropy and GF(2) rank, graphs, solver emitter budget and one emission per photon.",
- "C04": "Deductive: the wire-view effect of the only three edits the mutation moves use (insert_at = splice, remove_op = unsplice; C12 layers "
-        "1+2) and static frame/shape contracts of every move on the real AST (three-valued: unrecognised shape = undecided). Bounded: "
-        "the emission-constraint invariant after every move in exhaustive short and long random move histories, initialisation, hybrid "
-        "populations, deterministic and alternate-target solver outputs.",
+ "C04": "Deductive: the three DAG edits the moves use on symbolic graph fragments (insert_at / remove_op / replace_op) and their wire-view "
+        "meaning; SEMANTIC contracts of the seven mutation moves and both position helpers by symbolic execution of the real bodies on an "
+        "abstract circuit (only effects are insert_at / replace_op / remove_op; two-qubit ops emitter controlled with registers read from "
+        "the chosen edges; photon gates only after the emission; Fixed / Input / Output never removed; inserted pairs not incompatible); "
+        "the EmitInv induction step as a lemma over the wire view; the time-reversed solver's circuit-side helpers (Fixed label before "
+        "insertion); static text checks kept as a second opinion. Bounded: the emission invariant after every move in exhaustive short and "
+        "long random move histories (also on registers >= 10), initialisation, hybrid populations, solver outputs.",
  "C05": "Deductive: row_sum (loop invariant, spec function), g_function + L3 table, tab_row_swap, tab_row_sum, pauli finders (filter theory), "
         "insert_qubit, StabilizerTableau.__eq__, canonical_form frame, inner_product/fidelity/Stabilizer.__eq__ dispatch traces. Bounded: "
         "all ordered pairs of states n<=2 in all presentations, sampled n<=8, against state-vector overlaps.",
@@ -76,14 +83,17 @@ _D = {
         "time, replacement noise, op.noise restored; depolarizing weight lemma. Bounded: per-channel oracles, PSD/trace, backend agreement, "
         "zero strength / empty map / switched off.",
  "C07": "Deductive: every function of linalg.py and transformation.py, clifford.py z_measurement_gate (relational contract, sequence-loop "
-        "invariants, sum lemma), reset_x/y/z, swap_gate, insert_qubit, add_qubit, create_n_ket0/ket1, for symbolic sizes/indices "
+        "invariants, sum lemma), reset_x/y/z, swap_gate, insert_qubit, add_qubit, create_n_ket0/ket1, remove_qubit (measure then discard: "
+        "loop invariant over the filtered destabilizer list), tensor, partial_trace (n<=3, callers checked against remove_qubit's "
+        "contract), Stabilizer.remove_qubit, for symbolic sizes/indices "
         "(per-row rule, frame, object identity); Valid => Valid for all gates and the measurement update (sum lemmas by induction, abstract "
         "Aaronson-Gottesman step); L3 conjugation tables (exact). Bounded: all 11,520 two-qubit tableaux x operations, walks to n=200.",
  "C08": "Deductive: graph -> stabilizer constructions (X=I, Z=adjacency, signs 0), stabilizer_to_density dispatch, convert_representation "
         "dispatch table over the 9 ordered pairs (right converter, right payload, right wrapper class). Bounded: all graphs n<=4/5 through "
         "all conversions, state_to_graph gate lists applied by an independent simulator.",
  "C09": "Deductive: local_comp_graph (adj' = adj xor neighbour pairs, involution; matrix products by a sum-support lemma), "
-        "Graph.local_complementation, _is_valid_clifford, _coeff_maker, local_clifford_ops table (exact). Bounded: all ordered pairs n<=4 "
+        "Graph.local_complementation, _is_valid_clifford, _coeff_maker, _R_matrix incl. its argument frame for int and float inputs, "
+        "local_clifford_ops table (exact). Bounded: all ordered pairs n<=4 "
         "(n<=5 thorough) against a BFS orbit oracle, returned Cliffords and complementation sequences applied and compared.",
  "C10": "Deductive: the default setting is dispatched (static), the de-duplication region of solve() for an arbitrary equivalence relation "
         "(sizes <=4/5): one representative per class, none lost, order kept. Bounded: every result entry over all connected graphs n<=4 x "
@@ -91,7 +101,7 @@ _D = {
  "C11": "Deductive: run_circuit (every gate name, reverse handling, general list by trace induction), inverse_circuit clause (a) trace "
         "consistency in all seven blocks (lockstep loop rule), clifford_from_stabilizer dispatch. Clause (b) (result is |0..0>) is known "
         "FALSE for some states n>=5 (known finding) and is bounded-only. Bounded: all states n<=3 x generating sets, sampled up to n=30.",
- "C12": "Deductive: add / insert_at / remove_op / _add_reg_if_absent executed on symbolic graph fragments for every operation arity and "
+ "C12": "Deductive: add / insert_at / remove_op / replace_op / _add_reg_if_absent executed on symbolic graph fragments for every operation arity and "
         "register-type mix (edge multiset, node set, node_dict/edge_dict, register counts, id counter); wire lemmas: splice/unsplice keep "
         "every wire a single path in order, append/remove keep the graph acyclic. Bounded: exhaustive edit histories <=3 and long random "
         "histories recomputing the invariant from scratch.",
@@ -102,8 +112,10 @@ _D = {
         "semantics, to_json / from_json round trip per operation kind x register mix, to_openqasm emission loop by induction, JSON name "
         "tables (exact). The regex text parser from_openqasm is bounded-only. Bounded: textual round trips incl. multi-digit registers, an "
         "independent openQASM-2 reader, determinism across processes.",
- "C15": "Deductive: finite class table for direct()'s node test and its structural shape (static, three-valued). Bounded: all pairs of "
-        "circuits <=2 ops for all comparison methods judged by compiled states on every outcome branch, redundancy filters.",
+ "C15": "Deductive: one step of direct()'s register-by-register walk on symbolic graph fragments for every pair of next operations (continues "
+        "only if class, registers and types agree; follows the wire in both circuits), finite class table for the node test (exact), "
+        "structural shape (static, three-valued). Bounded: all pairs of circuits <=2 ops and order-sensitive families for all comparison "
+        "methods judged by compiled states on every outcome branch, compare-edit-compare histories, redundancy filters.",
  "C16": "Deductive: _perm2matrix (loop invariant), relabel proved literally as result[p(u),p(v)] = A[u,v] (sum-support lemma by induction), "
         "_equal_graphs, check_isomorphism, get_relabel_map identity branch. Bounded: all graphs n<=5 x all permutations, iso_finder option "
         "grid, every orbit explorer against a BFS orbit oracle.",
@@ -114,7 +126,8 @@ _D = {
         "metrics as effect traces (value = penalty(definition), logging, frame), unitary label list (exact over 2^8 patterns). Bounded: "
         "every metric vs an independent definition on enumerated and random circuits.",
  "C19": "Deductive: update_hof over real-valued scores for hall-of-fame sizes <=3 (length, entries are copies, population untouched; the "
-        "sortedness / best-not-worse clauses are REFUTED within the isclose tolerance - known finding), tournament_selection. Seed "
+        "sortedness / best-not-worse clauses are REFUTED within the isclose tolerance - known finding), tournament_selection, "
+        "population_initialization (every member is its own copy: lockstep of appended items and copy()/initialization() calls). Seed "
         "reproducibility is a 2-safety property: bounded only (same process, across hash seeds).",
  "C20": "Deductive: the finite group facts by exact arithmetic over Q(i,sqrt2) on graphiq's own matrices (24 elements, inequivalent, closed, "
         "G192 invariant => unbounded words, lookup on all 192 matrices, rejection of non-Cliffords, gap lemma), unwrap order and "
